@@ -1401,6 +1401,29 @@ func streamMsgParts(c *ctx) {
 				t = "(Some " + qMap(out) + ")"
 			}
 			c.addCase(fmt.Sprintf("MHdr %s %s", qOptB(d), t), short(fmt.Sprintf("headers-dec|%s|%x => ok=%v", tag, d, derr == nil)))
+			if derr == nil {
+				// GetMap on every label of the decoded map (nested map values get their labels normalised; anything else,
+				// maps with keys that are neither integers nor text included, is an error, never a panic)
+				for l := range out {
+					li, isInt := l.(int)
+					if !isInt {
+						continue
+					}
+					var gm key.CoseMap
+					var gerr error
+					p, pm := catch(func() { gm, gerr = out.GetMap(li) })
+					gl := short(fmt.Sprintf("getmap|%x|label=%d", d, li))
+					if p {
+						c.fail(failure{Op: "getmap", What: "GetMap panics on a decoded header map", Input: gl, Observed: "panic: " + pm, Expected: "a map or an error", Case: gl, Theorem: "C07_get_map_never_panics"})
+						continue
+					}
+					gt := "None"
+					if gerr == nil && gm != nil {
+						gt = "(Some " + qMap(gm) + ")"
+					}
+					c.addCase(fmt.Sprintf("MGetMap %s %s %s %s", qMap(out), qZ(int64(li)), qB(gerr == nil), gt), gl+fmt.Sprintf(" => ok=%v", gerr == nil))
+				}
+			}
 			c.nontriv(fmt.Sprintf("hdr-dec|%s|%v", tag, derr == nil))
 			c.count(fmt.Sprintf("hdr-dec %s ok=%v", tag, derr == nil))
 		}
